@@ -524,6 +524,14 @@ def boundary_recipes():
             k = cell_key(1, j)
             cell = dict(nested, s=text(k, 2)) if nested["k"] == "panel" else dict(nested, a=word(k), b=word(k))
             mk("nested renderable", 3, 2, cells={(0, j): cell}, pe=(i % 2 == 0), cp=(i % 3 == 0), pad=[0, 1, 0, 2], plain=True, ex=(i == 1))
+    # N. the same Table object was rendered before while ONE public attribute still had another value (at the same / another width)
+    for ex in (True, False):
+        for k in sorted(PRIOR_ATTRS):
+            for dW in (0, 3):
+                base = dict(ex=ex, sf=True, lead=0)
+                other = (None if DEFAULTS["box"] else "SQUARE") if k == "box" else (1 if k == "lead" else not dict(DEFAULTS, **base)[k])
+                t = mk("rendered before with another %s" % PRIOR_ATTRS[k], 3, 2, **base)
+                t["prior"] = dict(set={k: other}, dW=dW)
     return out
 
 
